@@ -200,9 +200,10 @@ def _isnanv(x):
 class NDArr:
     __array_priority__ = 1000
 
-    def __init__(self, a):
+    def __init__(self, a, dt=None):
         assert isinstance(a, _np.ndarray) and a.dtype == object, type(a)
         self._a = a
+        self._dt = dt  # declared kind, only consulted for empty arrays
 
     # --- structure
     @property
@@ -219,6 +220,8 @@ class NDArr:
 
     @property
     def dtype(self):
+        if self._a.size == 0 and self._dt:
+            return _DType(self._dt)
         return _DType(_kind(self._a))
 
     @property
@@ -553,6 +556,8 @@ def array(x, dtype=None, copy=True):
     r = NDArr(a.copy())
     if dtype is not None:
         r = _astype(r, dtype)
+        if isinstance(r, NDArr) and r.size == 0:
+            r._dt = "int" if dtype in (int, _b.int, int64, "int", "int64") else ("float" if dtype in (float, _b.float, float64, "float") else None)
     return r
 
 
